@@ -202,7 +202,11 @@ fn wire_case(rng: &mut Rng, rec: &mut Rec) {
     }
 }
 
-const HOSTILE: [&[u8]; 41] = [
+const HOSTILE: [&[u8]; 55] = [
+    // references that only a WHATWG parser's repairs turn into a URL on another host: RFC 3986 reads a path on the
+    // current authority, or a URI without a host
+    b"/\\evil.test/x", b"\\\\evil.test/x", b"/\t/evil.test/x", b"https:evil.test/x", b"https:/evil.test/x", b"http:evil.test/x", b"http:/evil.test/x", b"http:///evil.test/x", b"https:///evil.test/x", b"///evil.test/x",
+    b"http:/\\evil.test/x", b"/\\/evil.test/x", b"\\/evil.test/x", b"http:g",
     b"mailto:x@evil.test", b"evil.test:8080", b"tel:+1234", b"x:", b"urn:a.test:x",
     b"\xff\xfe", b"http://[::1", b"http://a b/", b"http://a.test:99999/", b"http://a.test:port/", b"http://user:pw@evil.test/", b"http:\\\\evil.test\\x", b"/\\evil.test", b"\\\\evil.test/", b"//", b"///", b"http://", b"http:///x",
     b"ht!tp://x/", b"javascript:alert(1)", b"mailto:a@b.test", b"ftp://ftp.test/f", b"file:///etc/passwd", b"http://[::1]/v6", b"http://[::1]:8080/v6", b"/a\tb", b"/a b", b" /lead", b"/%2e%2e/%2e%2e/x", b"/..%2fx", b"?\xc3\xa9", b"/\xc3\xa9",
@@ -232,9 +236,25 @@ fn hostile_case(idx: u64, rec: &mut Rec) {
     };
     let start = ["http://a.test/dir/file?q=1", "https://a.test", "http://a.test:8080/x/"][(kind % 3) as usize];
     let cfg = ReqCfg::new("GET", start);
-    let base = split_uri(start);
+    // half of the cells meet the hostile value on the second hop, after a clean redirect to another scheme and host
+    let prehop = (kind / 3) % 2 == 1;
+    const PREHOP: &str = "https://b.test/ok/";
+    let base = split_uri(if prehop { PREHOP } else { start });
+    rec.cov(if prehop { "hostile/on-second-hop" } else { "hostile/on-first-hop" });
     let res = guarded(|| -> Result<Option<(String, String)>, String> {
-        let f = fast_to_recv(&cfg)?;
+        let mut f = fast_to_recv(&cfg)?;
+        if prehop {
+            let mut h = RespHead::new(false, 302);
+            h.fields.push(Field::new("Location", PREHOP.as_bytes()));
+            let (end, _, _, _) = fast_response(f, &h.render()).map_err(|e| format!("PREHOP {}", e))?;
+            let nf = match end {
+                End::Redirect(mut r) => r.as_new_flow(RedirectAuthHeaders::SameHost).map_err(|e| format!("PREHOP {:?}", e))?.ok_or("PREHOP not followed")?,
+                End::Cleanup(_) => return Err("PREHOP no redirect state".into()),
+            };
+            let mut s = nf.proceed();
+            write_head_big(&mut s).map_err(|e| format!("PREHOP head {:?}", e))?;
+            f = to_recv_response(s, &[]).map_err(|e| format!("PREHOP {}", e))?;
+        }
         let mut h = RespHead::new(false, 302);
         h.fields.push(Field::new("Location", loc));
         let stream = h.render();
@@ -259,6 +279,7 @@ fn hostile_case(idx: u64, rec: &mut Rec) {
     rec.ev(|| format!("base {} Location {:?} -> {:?}", start, esc(loc), res));
     match res {
         Err((l, m)) => rec.fail(&format!("C14/{}", panic_sig(&l, &m)), format!("Location {:?}: panic {} at {}", esc(loc), m, l)),
+        Ok(Err(e)) if e.starts_with("PREHOP") => rec.fail("C14/setup", format!("the clean first hop failed: {}", e)),
         Ok(Err(_)) => rec.cov("hostile/refused"),
         Ok(Ok(None)) => rec.cov("hostile/not-followed"),
         Ok(Ok(Some((uri, head)))) => {
@@ -270,14 +291,23 @@ fn hostile_case(idx: u64, rec: &mut Rec) {
             // which no request can be made - whatever host a request then goes to, the Location never
             // named it as one
             let r = split_uri(&String::from_utf8_lossy(loc));
-            // (http: and https: are left out: there WHATWG repairs what RFC 3986 would call a path, as in
-            // "http:\\evil.test\x", and the host is one the Location spells out)
-            let special = matches!(r.scheme.as_deref().map(|s| s.to_ascii_lowercase()).as_deref(), Some("http") | Some("https"));
-            if r.scheme.is_some() && r.authority.is_none() && !special {
+            // (one reading is left open: RFC 3986 section 5.2.2 lets a non-strict resolver drop a scheme equal to
+            // the base's, so "http:g" on an http base may also be followed as the path "g" on the current authority)
+            let new_host = host_of(&split_uri(&uri));
+            let stays = new_host == host_of(&base);
+            let same_scheme = r.scheme.as_deref().map(|s| s.eq_ignore_ascii_case(base.scheme.as_deref().unwrap_or(""))).unwrap_or(false);
+            if r.scheme.is_some() && r.authority.is_none() && !(stays && same_scheme) {
                 return rec.fail("C14/followed-location-without-authority", format!("Location {:?} (scheme {:?}, no authority) led to a request for {} / {:?}", esc(loc), r.scheme, uri, head.lines().take(2).collect::<Vec<_>>()));
             }
+            // "//" announces an authority; an empty one names no host
+            if r.authority.as_deref() == Some("") {
+                return rec.fail("C14/followed-location-with-empty-authority", format!("Location {:?} (empty authority) led to a request for {} / {:?}", esc(loc), uri, head.lines().take(2).collect::<Vec<_>>()));
+            }
+            // a reference without scheme and authority is a path (or query) on the authority of the request just made
+            if r.scheme.is_none() && r.authority.is_none() && !stays {
+                return rec.fail("C14/path-reference-left-the-authority", format!("Location {:?} has no authority component, base {}, yet the request goes to {} / {:?}", esc(loc), if prehop { PREHOP } else { start }, uri, head.lines().take(2).collect::<Vec<_>>()));
+            }
             // weak oracle: never a request to an origin that is neither the base host nor named in the Location
-            let new_host = host_of(&split_uri(&uri));
             let loc_s = String::from_utf8_lossy(loc).to_ascii_lowercase();
             let trimmed = new_host.trim_end_matches('.');
             if new_host != host_of(&base) && !loc_s.contains(trimmed) && !new_host.is_empty() {
@@ -472,7 +502,7 @@ impl Property for P {
         vec![
             Workload::new("chains", tier.pick(20_000, 8_000_000), false, "random clean chains, URI compared at every hop"),
             Workload::new("wire", tier.pick(5_000, 2_000_000), false, "request line and Host of every intermediate hop"),
-            Workload::new("hostile", ((HOSTILE.len() + LONG_NON_TEXTUAL) * 3) as u64, true, "hostile Locations (36 hand-picked + 56 long non-textual ones around 256 bytes) x 3 bases, weak oracle"),
+            Workload::new("hostile", ((HOSTILE.len() + LONG_NON_TEXTUAL) * 6) as u64, true, "hostile Locations (55 hand-picked + 56 long non-textual ones around 256 bytes) x 3 bases x met on the first or on the second hop"),
             Workload::new("origin-form", 3 * 12 * 3 * 3, true, "requests in origin-form with the Host spelled out x 12 Locations x 3 methods x 3 statuses: no absolute base to resolve against"),
             Workload::new("partial-two-locations", 54, true, "opt-in truncated 3xx heads carrying two different Location fields"),
             Workload::new("missing", 108, true, "missing / non-textual Location, alone, as the last of several fields, and after interim responses that carry a Location"),
@@ -499,6 +529,8 @@ impl Property for P {
             v.push((format!("path-relative/base-dir/hop{}", hop), 2));
         }
         v.push(("several-location-fields".into(), 50));
+        v.push(("hostile/on-second-hop".into(), 50));
+        v.push(("hostile/refused".into(), 50));
         v.push(("self-absolute/*".into(), 20));
         v.push(("empty-query/*".into(), 20));
         v.push(("despite-method-on-redirected-flow".into(), 50));
